@@ -106,6 +106,9 @@ class ObjCall(Rule):
 # ---- spelling rules shared by all units (C++ spelling -> C spelling, callee -> stub) ----
 THROWS_IF = Call(r"\bPIKA_THROWS_IF", "{ vx_throws_if({0}, {1}); if (vx_exc) return; }", "+", stmt=True)
 SPELL = [
+    # a process mask cached in a function-local static: only the first call reads the current one (specs/C15/c15.h)
+    Sub(r"\bstatic\s+((?:const\s+)?(?:pika::)?(?:threads::detail::)?mask_type(?:\s+const)?)\s+(\w+)\s*=\s*(\w+)\.get_cpubind_mask_main_thread\(\);",
+        r"\1 \2 = topo_get_cpubind_mask_cached_in_static(\3);", None),
     Sub(r"pika::error::(\w+)", r"pika_error_\1", None),
     Sub(r"threads::detail::mask_type\b", "struct mask", None),
     Sub(r"threads::detail::(bit_and|count|any)\(", r"mask_\1(", None),
